@@ -59,6 +59,44 @@ func c01Joints(c *Ctx) []layout.RTPair {
 			},
 			ElsewherePrefix: "AdaptationField.", ElsewhereWhy: "decided for every valuation in C11 pair adaptation-field",
 		},
+		{Name: "packet-one-byte-af", Writer: c.fn("writePacket"), Parser: c.fn("parsePacket"), WriterObj: "$w", It: "$i", Root: "$p", RootPtr: true, MinSources: 2, Guided: true, ExactLen: true,
+			ParserPreds: map[string]bool{"nil:$s": true}, // no packet skipper (C19 decides the skipper)
+			WriterPreds: map[string]bool{"$p.Header.HasAdaptationField": true, "$p/AdaptationField.IsOneByteStuffing": true},
+			SkipSource: func(src *layout.Source) string {
+				// writePacket pads a short packet with 0xFF after the payload, which the parser returns as payload;
+				// WriteData always sizes the adaptation field stuffing so that nothing is padded: assume no padding
+				seenPayload := false
+				for k, ch := range src.Chunks {
+					if ch.Kind == layout.CBlob {
+						seenPayload = true
+					}
+					if ch.Kind == layout.CRepeat && seenPayload && k == len(src.Chunks)-1 {
+						src.St.Facts = append(src.St.Facts, lin.Fact{F: ch.Len}, lin.Fact{F: ch.Len.Scale(-1)})
+						src.Chunks = src.Chunks[:k]
+						src.Replace()
+					}
+				}
+				return ""
+			},
+			WriterEq: map[string]int64{"$targetPacketSize": 188},
+			// without payload the parser stops after the adaptation field (what follows is stuffing)
+			ConsumedSkip: func(src *layout.Source) bool {
+				for _, ch := range src.Chunks {
+					if ch.Kind == layout.CBlob {
+						return false
+					}
+				}
+				return true
+			},
+			Computed: map[string]func(*layout.Source) *lin.Form{
+				"AdaptationField.Length": exempt, "AdaptationField.StuffingLength": exempt,
+			},
+			Why: map[string]string{
+				"AdaptationField.Length":         "decided for every valuation in C11 pair adaptation-field",
+				"AdaptationField.StuffingLength": "decided for every valuation in C11 pair adaptation-field",
+			},
+			ElsewherePrefix: "AdaptationField.", ElsewhereWhy: "decided for every valuation in C11 pair adaptation-field",
+		},
 	}
 }
 
